@@ -17,7 +17,7 @@ RULE = ("cases = generated plotfiles x field selector forms (int, name, ascendin
         "schedule); non-trivial = level with >=2 files holding >=2 boxes in one of them, or "
         "in-file order != box order, under a non-identity schedule")
 ASSUMPTIONS = ["tasks are atomic (one per binary file)", "generator/refparse trusted base"]
-REQUIRED_OBS = {"iterations": 200, "schedules_nonidentity": 30, "calls:mp_read_bfile": 100,
+REQUIRED_OBS = {"iterations": 200, "schedules_nonidentity": 30,
                 "iter_selections": 50}
 TIMEOUT = {"quick": 300, "thorough": 1200}
 
